@@ -40,7 +40,7 @@ def _mk_frames():
     fr["DF5zeros"] = F.short_ap(5, 0, 0)
     fr["DF11"] = F.df11(0x406B90, 5, 0)
     fr["DF11alt"] = F.df11(0xAAAAAA, 2, 37)
-    # must never be returned
+    # DF17 with a flipped bit must never be returned; DF18 / DF16 / DF0 are distractors (may or may not be reported)
     bad = int(fr["DF17a"], 16) ^ (1 << 40)
     fr["DF17badcrc"] = "%028X" % bad
     fr["DF18"] = F.es(F.me(11, rest=0x123456789AB), 0x406B90, 5, 18)
@@ -118,6 +118,12 @@ def judge_history(specs):
         for g in got:
             if (int(g[:2], 16) >> 3) == 17 and len(g) == 28 and R.remainder(int(g, 16), 112) != 0:
                 return "demod:returned_DF17_with_bad_checksum"
+        # frames of formats the property does not list (DF18, DF16, DF0) are distractors: whether the reader reports them is
+        # not constrained (a reader that admits valid DF18 squitters still has the property), so they are removed from
+        # the answer before it is compared; a DF17 with a bad checksum is never acceptable (checked above)
+        free = {FRAMES[n].upper() for n in spec["frames"] if n in ("DF18", "DF16", "DF0")}
+        if free:
+            got = [g for g in got if g not in free]
         if got != exp:
             if len(got) < len(exp) or any(e not in got for e in exp):
                 kind = "frame_dropped"
